@@ -34,6 +34,7 @@ MODES = [
     ("single_pass", None, False, None), ("single_pass", "by_label", False, None),
     ("dynamic", None, False, None), ("dynamic", "by_label", False, None), ("dynamic", None, True, None),
     ("proportion", None, False, 0.1), ("proportion", None, False, 0.34), ("proportion", None, False, 0.5), ("proportion", None, False, 0.9),
+    ("proportion", None, False, 0.05), ("proportion", None, False, 0.03),  # a few samples out of many
 ]
 
 
@@ -135,6 +136,11 @@ def execute(ctx, case):
         sizes = np.zeros(4)
         for _ in range(k):
             b = s.bootstrap_sample(cfg)  # judged by M-bs
+            if _ < 3 and len(b.pos) and len(b.neg):
+                # a sample is a Scores object of its own: resampling it (non-stratified and stratified) is judged by M-bs with the
+                # sample as the source - nothing the first-level source knew about itself may leak into the second level
+                for m2, st2 in (("replacement", None), ("single_pass", None), ("replacement", "by_label")):
+                    b.bootstrap_sample(BootstrapConfig(sampling_method=m2, stratified_sampling=st2))
             if stat:
                 if not smoothing:
                     mp += np.bincount(np.searchsorted(spos, b.pos), minlength=npos)[:npos]
@@ -163,6 +169,16 @@ def execute(ctx, case):
             _ztest(sess, "multiplicity-pos: mean inclusion frequency of some positive score is off", mp / K, mu_p, 0.25, K, lambda: (confirm_all()[0] / (4 * K), 4 * K), w, sig)
             _ztest(sess, "multiplicity-neg: mean inclusion frequency of some negative score is off", mn / K, mu_n, 0.25, K, lambda: (confirm_all()[1] / (4 * K), 4 * K), w, sig)
             sess.check("S-bs", bool(np.all(mp > 0) and np.all(mn > 0)) or K * min(mu_p, mu_n) < 40, "reachability: a source score never appears in K samples", w, sig=sig, key="stat-reach")
+            # small fractions: per-score frequencies are too noisy, so pool the lowest and the highest third of each class
+            # (hypergeometric count per sample: mean k*m/n, variance below the binomial k*(m/n)(1-m/n))
+            for nm, cnt, n_, mu_ in (("pos", mp, npos, mu_p), ("neg", mn, nneg, mu_n)):
+                m_ = n_ // 3
+                if m_ >= 1:
+                    k_ = mu_ * n_
+                    pooled = lambda c, m_=m_: np.array([c[:m_].sum(), c[-m_:].sum()])  # noqa: E731
+                    idx_ = 0 if nm == "pos" else 1
+                    _ztest(sess, "thirds-%s: the lowest/highest third of the %s scores is drawn too often or too rarely" % (nm, nm), pooled(cnt) / K, k_ * m_ / n_,
+                           k_ * (m_ / n_) * (1 - m_ / n_) + 1e-12, K, lambda idx_=idx_, pooled=pooled: (pooled(confirm_all()[idx_]) / (4 * K), 4 * K), w, sig)
         else:
             if not smoothing:
                 _ztest(sess, "multiplicity-pos: mean multiplicity of some positive score is not 1", mp / K, 1.0, 1.3, K, lambda: (confirm_all()[0] / (4 * K), 4 * K), w, sig)
